@@ -408,6 +408,12 @@ def mon_expect(run, script, il, iab, ml):
                 if rc != '0' or got != data or d['l'][0x22] != n:
                     run.violation('LoRa transmit buffer/length wrong: rc=%s length register=%d expected %d' % (rc, d['l'][0x22], n), script,
                                   {'expected': data, 'got': got})
+        elif kind == 'cad' and P in ('C07',):
+            run.cov['monitor_checks'] += 1
+            f = irqs[-1] if irqs else {}
+            cads = [c for c in cb_entries(f.get('cb')) if c['kind'] == 'cad']
+            if len(cads) != 1:
+                run.violation('the chip raised one CAD-done event: the cad callback fired %d times' % len(cads), script)
         elif kind == 'txonce' and P in ('C06', 'C07', 'C11'):
             run.cov['monitor_checks'] += 1
             ntx = len([c for c in cbs if c['kind'] == 'tx'])
